@@ -5,7 +5,7 @@ CONSTANTS Names <- NamesMB Depth = 3 Vals <- ValsXL Sep = 46 Design = "list" Bas
   Routes <- RDocs Cfgs <- CfgTN SingleKinds <- SKAssign PrePaths <- PreG
   LoadKinds <- LoadQ TwoFiles = FALSE EnvCalls <- None ArgCalls <- None ClearLists <- None
   MsgSets <- None MsgGets <- None NodeBases <- BasesT FputSeps <- None
-  MaxOps = 2 MaxArr = 1 SinglesFirst = TRUE Observe = TRUE
+  MaxOps = 2 MaxArr = 1 SingleWhen = "first" QuoteSet <- AllQuotes Observe = TRUE
 CONSTRAINT Bound
 VIEW ViewX
 ACTION_CONSTRAINT EmitX
